@@ -55,6 +55,9 @@ def configs(tier):
         add(d=2, q=2, m=2, mode=mode, imputer='joint', storage='batch', labels=2)
         add(d=2, q=1, m=2, mode=mode, imputer='joint', storage='batch', q_call=2)
         add(d=2, q=2, m=2, mode=mode, imputer='joint', storage='batch', ignored=1)
+        for lt in ('int', 'np'):
+            add(d=2, q=2, m=2, mode=mode, imputer='joint', storage='batch', loss_type=lt)
+            add(d=1, q=3, m=2, mode=mode, imputer='product', storage='batch', loss_type=lt)
         add(d=3, q=1, m=2, mode=mode, imputer='product', storage='batch', ignored=0)
         T = 4 if tier == 'quick' else 5
         add(group='explicit', d=1, q=1, T=T, mode=mode, imputer='joint', storage='batch', _cost=50)
